@@ -172,6 +172,8 @@ var sharedExts = func() []omniparser.Extension {
 		},
 		CustomFuncs: customfuncs.Merge(customfuncs.CommonCustomFuncs, v21.OmniV21CustomFuncs, customfuncs.CustomFuncs{
 			"verif_tag": func(_ *transformctx.Ctx, s string) (string, error) { return "[" + s + "]", nil },
+			// this extension binds the builtin NAME `upper` to its own function
+			"upper": func(_ *transformctx.Ctx, s string) (string, error) { return "<<" + strings.ToUpper(s) + ">>", nil },
 		}),
 	})
 	return l
@@ -350,7 +352,41 @@ const usersSchema = `{"parser_settings": {"version": "omni.2.1", "file_format_ty
 const x2Schema = `{"parser_settings": {"version": "omni.2.1", "file_format_type": "json"},
  "transform_declarations": {"FINAL_OUTPUT": {"xpath": "/*", "object": {
    "tag": {"custom_func": {"name": "verif_tag", "args": [{"xpath": "s"}]}},
+   "up": {"custom_func": {"name": "upper", "args": [{"xpath": "s"}]}},
    "v": {"xpath": "v", "type": "int"}}}}}`
+
+// a javascript call that FAILS EARLY (an arg name that is not a string, after an ordinary arg)
+// among ordinary calls, and a script that looks at a global it does not define
+const badNameSchema = `{"parser_settings": {"version": "omni.2.1", "file_format_type": "json"},
+ "transform_declarations": {"FINAL_OUTPUT": {"xpath": "/*", "object": {
+   "a_bad": {"custom_func": {"name": "javascript", "ignore_error": true, "args": [{"const": "1"}, {"const": "leaked"}, {"xpath": "s"}, {"const": "2", "type": "int"}, {"xpath": "v"}]}},
+   "a_bad2": {"custom_func": {"name": "javascript_with_context", "ignore_error": true, "args": [{"const": "2"}, {"const": "leak"}, {"xpath": "v"}, {"const": "7", "type": "int"}, {"xpath": "s"}]}},
+   "obs": {"custom_func": {"name": "javascript", "args": [{"const": "typeof leaked === 'undefined' ? (typeof leak === 'undefined' ? 'none' : 'leak=' + leak) : 'leaked=' + leaked"}]}},
+   "z_ok": {"custom_func": {"name": "javascript", "args": [{"const": "a + 1"}, {"const": "a"}, {"xpath": "v", "type": "int"}]}}
+ }}}}`
+
+// semantic expectations that do not depend on any other run of the process: a transcript that is
+// equal to its solo run can still be wrong when the solo run is poisoned by process history
+func semantic(schema, line string) string {
+	if !strings.HasPrefix(line, "OK: ") {
+		return ""
+	}
+	switch schema {
+	case "x2-tag":
+		if !strings.Contains(line, `"up":"\u003c\u003c`) {
+			return "schema x2-tag was created with an extension that binds `upper` to its own function (<<...>>), but another function ran"
+		}
+	case "ext", "xpath", "fl-hf":
+		if strings.Contains(line, "<<") || strings.Contains(line, `\u003c\u003c`) {
+			return "schema " + schema + " uses the builtin custom_funcs, but the function another extension binds to the same name ran"
+		}
+	case "badname":
+		if !strings.Contains(line, `"obs":"none"`) {
+			return "a javascript script saw a global it never declared: args of a failed call leaked"
+		}
+	}
+	return ""
+}
 
 // a script that throws at run time for some records, without ignore_error: the record fails and
 // the error TEXT (which carries goja's position information) is part of the transcript
@@ -659,6 +695,7 @@ func specs() []spec {
 	add("shadow", shadowSchema, genJSInput)
 	add("users", usersSchema, genJSInput)
 	add("x2-tag", x2Schema, genJSInput)
+	add("badname", badNameSchema, genJSInput)
 	add("jsthrow", jsThrowSchema, genJSInput)
 	return out
 }
@@ -757,7 +794,7 @@ func genContention(r *vh.Rng, w *workload) (desc mixDesc) {
 	for i, s := range w.schemas {
 		desc.Schemas = append(desc.Schemas, s.Name)
 		switch s.Name {
-		case "ctx", "ctx3", "shadow", "users", "js", "jsthrow":
+		case "ctx", "ctx3", "shadow", "users", "js", "jsthrow", "badname":
 			pick = append(pick, i)
 		}
 	}
@@ -1018,6 +1055,14 @@ func execMix(desc mixDesc, w0 *workload) (fails [][2]string, seqs [][]int64, c0,
 	}
 	for g := range got {
 		for k := range got[g] {
+			for _, tr := range [][]string{got[g][k], expected[g][k]} {
+				for _, line := range tr {
+					if why := semantic(desc.Jobs[g][k].Label, line); why != "" {
+						fails = append(fails, [2]string{why, trunc(line)})
+						break
+					}
+				}
+			}
 			if !reflect.DeepEqual(got[g][k], expected[g][k]) {
 				d := diffFirst(expected[g][k], got[g][k])
 				fails = append(fails, [2]string{fmt.Sprintf("goroutine %d, transform %d over schema %s: transcript differs from the same transform run alone", g, k, desc.Jobs[g][k].Label), d})
@@ -1225,6 +1270,10 @@ func main() {
 			for _, l := range tr {
 				if strings.HasPrefix(l, "OK: ") {
 					okc++
+				}
+				if why := semantic(ss.Name, l); why != "" {
+					sum.Fail(why, map[string]string{"kind": "solo-run", "schema": ss.Name}, trunc(l))
+					break
 				}
 			}
 			if len(tr) > 3 {
